@@ -2,11 +2,15 @@
   Driver for the `fspec` suite (C05): `forest spec <op> <labels…>` answers with the CONTENT
   (labels erased, roots in canonical order) of the SPECIFICATION (`Model/FspecSpec.lean`, rule
   `Keep.earlier`) applied to the current session forest; the session state is not changed.
+  Since the second round also `clone`, the attribute / namespace map updates, the value setters
+  and `text_content_set` (`Model/FspecSpec2.lean`).
   `forest specx <op> <labels…>` answers `1` iff the model's own result of the call is, handle
   for handle, the specification with xot's survivor rule (`Keep.resident`): a model-internal
   cross-check of the statements proved in `Props/C05.lean`.
 -/
 import XotModel.Model.FspecSpec
+import XotModel.Model.FspecSpec2
+import XotModel.Model.FspecSpec3
 import XotModel.Driver.Forest
 
 namespace XotModel.Driver
@@ -57,11 +61,75 @@ def specOf (s : FState) (ws : List String) (resident : Bool) : Option (Forest ×
       some (specWrap n nm f, (f.elementWrap n nm).1)
   | ["replace", a, b] => do
       let o ← node a; let n ← node b
-      some (specReplace (keep n) o n f, (f.replace o n).1)
+      some (if resident then specReplaceX o n f else specReplace Keep.earlier o n f, (f.replace o n).1)
+  | ["clone", a] => do
+      let n ← node a
+      some (specClone n f, (f.cloneNode n).1)
+  | ["map_insert", "attr", a, k, v] => do
+      let e ← node a; let entry := Value.attribute (← k.toNat?) (← decStr v)
+      some (specMapInsert .attributes e entry f, (f.mapInsert .attributes e entry).1)
+  | ["map_insert", "ns", a, k, v] => do
+      let e ← node a; let entry := Value.namespace (← k.toNat?) (← v.toNat?)
+      some (specMapInsert .namespaces e entry f, (f.mapInsert .namespaces e entry).1)
+  | ["map_remove", kind, a, k] => do
+      let e ← node a; let mk ← mapKind? kind; let key ← k.toNat?
+      some (specMapRemove mk e key f, (f.mapRemove mk e key).1)
+  | ["set_name", a, nm] => do
+      let n ← node a; let nm ← nm.toNat?
+      some (specSetValue n (.element nm) f, (f.setElementName n nm).1)
+  | ["set_text", a, v] => do
+      let n ← node a; let t ← decStr v
+      some (specSetValue n (.text t) f, (f.setText n t).1)
+  | ["set_comment", a, v] => do
+      let n ← node a; let t ← decStr v
+      some (specSetValue n (.comment t) f, (f.setComment n t).1)
+  | ["set_pi_data", a, v] => do
+      let n ← node a
+      let d ← (if v == "-" then some none else (decStr v).map some)
+      match f.value? n with
+      | some (.pi tg _) => some (specSetValue n (.pi tg (piData d)) f, (f.setPiData n d).1)
+      | _ => none
+  | ["text_content_set", a, v] => do
+      let n ← node a; let t ← decStr v
+      some (specTextContentSet n t f, (f.textContentSet n t).1)
+  | _ => none
+
+/-- The PAIR reading (`Model/FspecSpec3.lean`): defined for every forest, also one that already
+    holds adjacent text nodes. -/
+def specPOf (s : FState) (ws : List String) : Option (Forest × Forest × Bool) :=
+  let node (w : String) : Option Nat := do s.handleOf (← w.toNat?)
+  let f := s.forest
+  match ws with
+  | ["append", a, b] => do
+      let p ← node a; let c ← node b
+      some (specMoveP (.lastChildOf p) c f, (f.append p c).1, selfMerge f (.lastChildOf p) c)
+  | ["prepend", a, b] => do
+      let p ← node a; let c ← node b
+      some (specMoveP (.firstNormalChildOf p) c f, (f.prepend p c).1, false)
+  | ["insert_after", a, b] => do
+      let r ← node a; let c ← node b
+      some (specMoveP (.after r) c f, (f.insertAfter r c).1, false)
+  | ["insert_before", a, b] => do
+      let r ← node a; let c ← node b
+      some (specMoveP (.before r) c f, (f.insertBefore r c).1, selfMerge f (.before r) c)
+  | ["remove", a] => do
+      let n ← node a
+      some (specRemoveP n f, (f.remove n).1, false)
+  | ["detach", a] => do
+      let n ← node a
+      some (specDetachP n f, (f.detach n).1, false)
   | _ => none
 
 def handleFspec (s : FState) (ws : List String) : Option String :=
   match ws with
+  -- at the recorded defect (`selfMerge`) the model's own result is shown instead of the
+  -- specification's: the deviation is reported by the harness oracle on the implementation
+  | "specp" :: rest => do
+      let (sp, md, dfct) ← specPOf s rest
+      some (contentDump s (if dfct then md else sp))
+  | "specpx" :: rest => do
+      let (sp, md, dfct) ← specPOf s rest
+      some (if dfct || rawDump sp == rawDump md then "1" else "0")
   | "spec" :: rest => do
       let (sp, _) ← specOf s rest false
       some (contentDump s sp)
